@@ -536,6 +536,7 @@ static ssize_t do_recv(int call, int fd, void *buf, size_t len, int flags, struc
         if (take < d.data.size()) probe("sock.dgram_truncated");
         if (from && fromlen) to_sockaddr(d.from, from, fromlen);
         ev("dgram_recv", s->id, (int64_t)take);
+        if (flags & MSG_TRUNC) return (ssize_t)d.data.size();      // Linux: the real length of the datagram, however short the buffer
         return (ssize_t)take;
       }
     } else {
